@@ -5,17 +5,20 @@ Line protocol (stateless, one case per line):
 
   seq <listener> <protos> <events>
      listener : n | a | d                         (never set | alive | garbage-collected)
-     protos   : csv of <tasks>:<kinds>            kinds = `.`-joined reports emitted by close(): c | l<e> ; `-` none
-                e.g.  1:c,0:-,2:l7.c
+     protos   : csv of <tasks>:<reports>          reports = `.`-joined reports emitted by close(): <kind><beh> ; `-` none
+                kind = c | l<e>                   e.g.  1:c,0:-,2:l7.c~a10+u!
+     beh      : [~<inner>][!]                     what the user's handler does when invoked: inner = `+`-joined
+                                                  a<m> (API member m) | u (close()); `!` = then raises
      events   : csv (`-` = empty) of
-                r<i>c | r<i>l<e>   protocol i reports closed | lost(exception e)      (i one digit)
+                r<i><kind><beh>    protocol i reports closed | lost(exception e)      (i one digit)
                 u                  atv.close()
                 a<m>               public member number m of the generated table
                 s | t              push_updater.start() | .stop() on the held object
-                p<i>               protocol i's push updater posts an update
-  → <outs> N=<notified> C=<calls_made> K=<close log> P=<id:tasks|-> B=<per member 1 blocked/0> S=<push on> R=<raised>
-     outs     : csv per event: `-` | set<id>:<n> | raised | blocked | pass | d0 | d1
+                p<i><beh>          protocol i's push updater posts an update (beh = the PushListener handler)
+  → <outs> N=<notified> C=<calls_made> K=<close log> P=<id:tasks|-> B=<per member 1 blocked/0> S=<push on> R=<raised> I=<inner>
+     outs     : csv per event: `-` | set<id>:<n> | raised | userRaised | escaped | blocked | pass | d0 | d1
      notified : csv of <i>c | <i>l<e>
+     inner    : csv of <d|p><a<m>|u>=<out>       calls made from inside DeviceListener (d) / PushListener (p) callbacks
 
   table    → number of members, objects, push object index, max_calls (sanity handshake)
 -/
@@ -27,11 +30,34 @@ def parseKind? (cs : List Char) : Option Kind :=
   | 'l' :: ds => if ds.isEmpty then none else (String.ofList ds).toNat?.map Kind.lost
   | _ => none
 
+def parseInEv? (w : String) : Option InEv :=
+  match w.toList with
+  | ['u'] => some .close
+  | 'a' :: ds => if ds.isEmpty then none else (String.ofList ds).toNat?.map InEv.api
+  | _ => none
+
+/-- `<head>[~inner][!]` → (head, beh) -/
+def splitBeh? (w : String) : Option (String × Beh) :=
+  let cs := w.toList
+  let raises := cs.getLast? == some '!'
+  let cs := if raises then cs.dropLast else cs
+  match (String.ofList cs).splitOn "~" with
+  | [h] => some (h, { inner := [], raises := raises })
+  | [h, inn] => do
+    let es ← (inn.splitOn "+").mapM parseInEv?
+    pure (h, { inner := es, raises := raises })
+  | _ => none
+
+def parseReportTok? (w : String) : Option (Kind × Beh) := do
+  let (h, b) ← splitBeh? w
+  let k ← parseKind? h.toList
+  pure (k, b)
+
 def parseProto? (w : String) : Option Proto :=
   match w.splitOn ":" with
   | [t, ks] => do
     let t ← t.toNat?
-    let ks ← if ks == "-" then some [] else (ks.splitOn ".").mapM fun k => parseKind? k.toList
+    let ks ← if ks == "-" then some [] else (ks.splitOn ".").mapM parseReportTok?
     pure { onClose := ks, tasks := t }
   | _ => none
 
@@ -41,9 +67,15 @@ def parseEv? (w : String) : Option Ev :=
   | ['s'] => some .pushStart
   | ['t'] => some .pushStop
   | 'r' :: d :: rest =>
-    if d.isDigit then (parseKind? rest).map (Ev.report (d.toNat - 48)) else none
+    if d.isDigit then do
+      let (k, b) ← parseReportTok? (String.ofList rest)
+      pure (Ev.report (d.toNat - 48) k b)
+    else none
   | 'a' :: ds => if ds.isEmpty then none else (String.ofList ds).toNat?.map Ev.api
-  | 'p' :: ds => if ds.isEmpty then none else (String.ofList ds).toNat?.map Ev.push
+  | 'p' :: rest => do
+    let (h, b) ← splitBeh? (String.ofList rest)
+    let i ← h.toNat?
+    pure (Ev.push i b)
   | _ => none
 
 def parseListener? : String → Option Listener
@@ -59,12 +91,22 @@ def Out.toStr : Out → String
   | .none => "-"
   | .set id n => s!"set{id}:{n}"
   | .raised => "raised"
+  | .userRaised => "userRaised"
+  | .escaped => "escaped"
   | .blocked => "blocked"
   | .pass => "pass"
   | .badMember => "bad-member"
   | .delivered b => if b then "d1" else "d0"
 
+def innerToStr (e : Bool × InEv × Out) : String :=
+  let who := if e.1 then "d" else "p"
+  let what := match e.2.1 with | .api m => s!"a{m}" | .close => "u"
+  s!"{who}{what}={e.2.2.toStr}"
+
 def csvList? (w : String) : List String := if w == "-" then [] else w.splitOn ","
+
+def inRange (n : Nat) (b : Beh) : Bool :=
+  b.inner.all fun e => match e with | .api m => m < n | .close => true
 
 def handle (_ : Unit) (ws : List String) : Unit × String :=
   match ws with
@@ -74,7 +116,11 @@ def handle (_ : Unit) (ws : List String) : Unit × String :=
     match parseListener? l, (csvList? ps).mapM parseProto?, (csvList? es).mapM parseEv? with
     | some l, some ps, some es =>
       let cfg := facadeCfg l ps
-      if es.any (fun e => match e with | .api m => m ≥ cfg.members.length | _ => false) then ((), "bad-op")
+      let n := cfg.members.length
+      let okEv := es.all fun e => match e with
+        | .api m => m < n | .report _ _ b => inRange n b | .push _ b => inRange n b | _ => true
+      let okP := ps.all fun p => p.onClose.all fun rb => inRange n rb.2
+      if !(okEv && okP) then ((), "bad-op")
       else
         let s0 := init cfg
         let outs := outputs cfg s0 es
@@ -83,7 +129,7 @@ def handle (_ : Unit) (ws : List String) : Unit × String :=
         let bits := String.ofList (cfg.members.map fun m => if apiBlocked cfg s m then '1' else '0')
         ((), s!"{csv (outs.map Out.toStr)} N={csv (s.notified.map Report.toStr)} C={s.callsMade} "
           ++ s!"K={csv (s.closeLog.map toString)} P={pend} B={bits} S={if s.pushOn then 1 else 0} "
-          ++ s!"R={if s.raised then 1 else 0}")
+          ++ s!"R={if s.raised then 1 else 0} I={csv (s.inner.map innerToStr)}")
     | _, _, _ => ((), "bad-op")
   | _ => ((), "bad-op")
 
